@@ -55,7 +55,7 @@ def one_case(args):
     margs = {"view_rdh": ["view", "rdh", "-d"], "check_all": ["check", "all"] + (["-m"] if big else []), "view_data": ["view", "its-readout-frames-data", "-d"], "writer": []}[mode]
     argv = ([] if use_stdin else [path]) + margs + fargs
     r = obs.run(exe, argv, stdin_path=path if use_stdin else None, workdir=wd, stats="json" if mode == "check_all" else None,
-                out_name=(mode == "writer"), tag="c%d" % case, timeout=900 if big else 180,
+                out_name=(mode == "writer"), tag="c%d" % case, timeout=900 if big else 180, prefill_out=(b"\x5a" * 70000 if case % 3 == 0 and not big else None),
                 stdin_chunk=(rng.choice([None, None, 7, 64, 999, 8191, 8193]) if use_stdin and not big else None))
     os.unlink(path)
     exp = expected(pkts, flt)
